@@ -15,6 +15,9 @@ traffic (one dsp call).  Proved here, for EVERY store, trace and run length:
 * `C12_trace_checker_sound`: what `balanced s t = true` means, read key by key and as plain counts of the trace.
 * `C12_balanced_periodic`: if every frame from `N0` on is balanced, the numbers of live closures and heap objects
   after `N` and after `2N` frames are equal, for all `N ≥ N0`.
+* `C12_refcount_accounting`, `C12_balanced_retains_matched`, `C12_refcount_drift_unbounded`: per object, refcount after =
+  before + retains − releases; an accepted frame retains every surviving pre-existing object exactly as often as it
+  releases it; a per-frame surplus of retains makes the refcount grow without bound although the counts stay equal.
 * `C12_unbalanced_grows`: conversely a legal run whose frames each insert `d` more objects than they remove has
   `live(n) = live(0) + n·d` — with `d > 0` the counts after `N` and `2N` differ for every `N ≥ 1`.
 * discipline (P1), for every store and all fresh keys: the traffic the VM produces for a closure that does not escape
@@ -159,18 +162,54 @@ theorem C12_unbalanced_not_periodic (sp : Space) (s0 : Store) (fr : Nat → Trac
     omega
   omega
 
+/-- per-object accounting: over a legal trace that does not remove `k`,
+refcount after + releases of `k` = refcount before + retains of `k` -/
+theorem C12_refcount_accounting (s s' : Store) (t : Trace) (k : Key) (n : Nat) (h : run s t = some s')
+    (hn : rcOf s k = some n) (hfree : (⟨.free, k⟩ : Op) ∉ t) :
+    ∃ m, rcOf s' k = some m ∧ m + countOp .release k t = n + countOp .retain k t :=
+  rcOf_run h hn hfree
+
+/-- "every retain has a matching release": in a frame the judge accepts, every object that existed before the frame
+and is not removed by it is retained exactly as often as it is released. -/
+theorem C12_balanced_retains_matched (s : Store) (t : Trace) (h : balanced s t = true) (k : Key) (n : Nat)
+    (hn : rcOf s k = some n) (hfree : (⟨.free, k⟩ : Op) ∉ t) :
+    countOp .retain k t = countOp .release k t := by
+  obtain ⟨s', hr, _, hs, _⟩ := balanced_run h
+  obtain ⟨m, hm, e⟩ := rcOf_run hr hn hfree
+  have := sameRc_sound hs k hn hm
+  omega
+
+/-- the leak that object counts do not show (finding C12-K6): if every frame is legal, never removes `k` and retains
+it `d` times more often than it releases it, the refcount of `k` after `n` frames is `rc(0) + n·d` — unbounded. -/
+theorem C12_refcount_drift_unbounded (s0 : Store) (fr : Nat → Trace) (k : Key) (d r0 : Nat)
+    (h0 : rcOf s0 k = some r0)
+    (hfree : ∀ i, (⟨.free, k⟩ : Op) ∉ fr i)
+    (hd : ∀ i, countOp .retain k (fr i) = countOp .release k (fr i) + d) :
+    ∀ n s, after s0 fr n = some s → rcOf s k = some (r0 + n * d) := by
+  intro n
+  induction n with
+  | zero => intro s h; simp [after] at h; subst h; simpa using h0
+  | succ n ih =>
+    intro s h
+    obtain ⟨s1, h1, hr⟩ := after_succ_some h
+    obtain ⟨m, hm, e⟩ := rcOf_run hr (ih s1 h1) (hfree n)
+    have := hd n
+    rw [hm, Nat.succ_mul]
+    congr 1
+    omega
+
 /-! ## discipline of single constructs (P1): the fragments the VM emits, for every store and all fresh keys -/
 
-/-- PARTIAL (the part that holds): a closure that does not escape costs nothing — whenever the VM's traffic for it is
-legal, the numbers of live closures and heap objects are back where they were. -/
-theorem C12_discipline_local_closure_partial (s s' : Store) (c h : Key) (uses : Nat)
-    (hc : c.space = .cls) (hh : h.space = .heap)
-    (hr : run s (fragLocalClosure c h uses) = some s') : ∀ sp, liveCount sp s' = liveCount sp s := by
+/-- PARTIAL (the part that holds): a closure that does not escape costs nothing. Whatever dereferences are
+interleaved, if the VM's traffic for it (insert closure and wrapper … drop closure, release wrapper) is legal, the
+numbers of live closures and heap objects are back where they were. -/
+theorem C12_discipline_local_closure_partial (s s' : Store) (t : Trace) (c h : Key)
+    (hc : c.space = .cls) (hh : h.space = .heap) (hsk : skeleton t = skLocalClosure c h)
+    (hr : run s t = some s') : ∀ sp, liveCount sp s' = liveCount sp s := by
   intro sp
   have := liveCount_run sp hr
-  simp only [fragLocalClosure, countKind_append, countKind_replicate_use _ _ _ _ (by decide : Kind.alloc ≠ .use),
-    countKind_replicate_use _ _ _ _ (by decide : Kind.free ≠ .use)] at this
-  cases sp <;> simp [countKind, hc, hh] at this <;> omega
+  rw [← countKind_skeleton .free sp t (by decide), ← countKind_skeleton .alloc sp t (by decide), hsk] at this
+  cases sp <;> simp [skLocalClosure, countKind, hc, hh] at this <;> omega
 
 /-- … and the traffic is legal from every store in which the two slots are vacant or new (so the lemma is not vacuous). -/
 theorem C12_discipline_local_closure_legal (s : Store) (c h : Key) (uses : Nat)
@@ -218,18 +257,37 @@ theorem C12_discipline_local_closure_legal (s : Store) (c h : Key) (uses : Nat)
   rw [uses_ok]
   simp only [run, e3, e4, e5, e6]
 
-/-- FINDING (general form): the traffic of a `let`-bound capturing closure, whenever legal, leaves exactly one more
-live closure behind, in every store — one closure per execution of the `let`. -/
-theorem C12_discipline_let_closure_leaks (s s' : Store) (c h : Key) (uses : Nat)
-    (hc : c.space = .cls) (hh : h.space = .heap)
-    (hr : run s (fragLetClosure c h uses) = some s') :
+/-- FINDING C12-K1 (general form): the traffic of a `let`-bound capturing closure, whenever legal and whatever
+dereferences are interleaved, leaves exactly one more live closure behind, in every store. -/
+theorem C12_discipline_let_closure_leaks (s s' : Store) (t : Trace) (c h : Key)
+    (hc : c.space = .cls) (hh : h.space = .heap) (hsk : skeleton t = skLetClosure c h)
+    (hr : run s t = some s') :
     liveCount .cls s' = liveCount .cls s + 1 ∧ liveCount .heap s' = liveCount .heap s := by
   have a := liveCount_run .cls hr
   have b := liveCount_run .heap hr
-  simp only [fragLetClosure, countKind_append, countKind_replicate_use _ _ _ _ (by decide : Kind.alloc ≠ .use),
-    countKind_replicate_use _ _ _ _ (by decide : Kind.free ≠ .use)] at a b
-  simp [countKind, hc, hh] at a b
+  rw [← countKind_skeleton .free _ t (by decide), ← countKind_skeleton .alloc _ t (by decide), hsk] at a b
+  simp [skLetClosure, countKind, hc, hh] at a b
   omega
+
+/-- FINDING C12-K2 / C12-K3 (general form): the traffic of a function-valued argument and of a function-valued
+result, whenever legal, leaves one closure AND its heap wrapper behind, in every store. -/
+theorem C12_discipline_fn_arg_and_result_leak (s s' : Store) (t : Trace) (c h : Key) (again : Nat)
+    (hc : c.space = .cls) (hh : h.space = .heap)
+    (hsk : skeleton t = skFnArg c h ∨ skeleton t = skFnRet c h again)
+    (hr : run s t = some s') :
+    liveCount .cls s' = liveCount .cls s + 1 ∧ liveCount .heap s' = liveCount .heap s + 1 := by
+  have a := liveCount_run .cls hr
+  have b := liveCount_run .heap hr
+  rw [← countKind_skeleton .free _ t (by decide), ← countKind_skeleton .alloc _ t (by decide)] at a b
+  rcases hsk with hsk | hsk
+  · rw [hsk] at a b
+    simp [skFnArg, countKind, hc, hh] at a b
+    omega
+  · rw [hsk] at a b
+    simp only [skFnRet, countKind_append, countKind_replicate_close _ _ _ _ (by decide : Kind.alloc ≠ .close),
+      countKind_replicate_close _ _ _ _ (by decide : Kind.free ≠ .close)] at a b
+    simp [countKind, hc, hh] at a b
+    omega
 
 /-! ## the recorded witnesses of the open findings (traffic of one steady-state dsp call of the real VM) -/
 
@@ -243,6 +301,12 @@ theorem C12_witness_let_closure_unbalanced :
 theorem C12_witness_fn_arg_unbalanced :
     balanced [] witnessFnArg = false ∧
     (run [] witnessFnArg).map (fun s => (liveCount .cls s, liveCount .heap s, weight .cls s, weight .heap s))
+      = some (1, 1, 2, 1) := by
+  decide +kernel
+
+theorem C12_witness_fn_ret_unbalanced :
+    balanced [] witnessFnRet = false ∧
+    (run [] witnessFnRet).map (fun s => (liveCount .cls s, liveCount .heap s, weight .cls s, weight .heap s))
       = some (1, 1, 2, 1) := by
   decide +kernel
 
@@ -260,6 +324,14 @@ example :
     strictlyBalanced [] t1 = true ∧
     (run [] t1).map (fun s => balanced s t2) = some true ∧
     (run [] t1).map (fun s => balanced s ([⟨.alloc, c 1 3⟩, ⟨.use, c 1 1⟩] ++ t2.drop 1)) = some false := by
+  decide +kernel
+
+/-! the general discipline lemmas above apply to the recorded witnesses: their skeletons are the modelled ones -/
+example :
+    skeleton witnessLetClosure = skLetClosure (c 1 1) (h 1 1) ∧
+    skeleton witnessFnArg = skFnArg (c 1 1) (h 1 1) ∧
+    skeleton witnessFnRet = skFnRet (c 1 1) (h 1 1) 0 ∧
+    skeleton (fragLocalClosure (c 1 1) (h 1 1) 2) = skLocalClosure (c 1 1) (h 1 1) := by
   decide +kernel
 
 end Mimium.Heap
